@@ -134,6 +134,8 @@ func checkC09(c *Ctx) {
 
 	checkSanitisers(c, gen)
 	checkPostRender(c, gen)
+	// the embedded documents carry every free text of the spec inside a raw string: both pass the escaper, always
+	checkEmbeddedStores(c, "C09.R3.embedded-escaped", gen)
 	checkPrintTags(c, gen)
 }
 
